@@ -145,6 +145,8 @@ Inductive op :=
 | OpT (k : kind) (l : lit)                       (* newOccaType(primitive(x, type)) *)
 | OpK (l : lit)                                  (* kernelArg(x) *)
 | OpKRun (args : list lit)                       (* run a kernel that writes its arguments back *)
+| OpScopeDecl (isConst : bool) (l : lit)         (* occaScopeAdd[Const](scope, name, x): how the inlined kernel declares it *)
+| OpScopeRun (isConst : bool) (args : list lit)  (* ... and what an inlined (JIT) kernel reads for each of them *)
 | OpNew (n : nat)                                (* slot n = occaCreateJson() *)
 | OpFree (n : nat)                               (* occaFree(&slot n) *)
 | OpIsUndef (n : nat)
@@ -168,9 +170,18 @@ Inductive op :=
 Inductive ptype := PTNone | PTK (k : kind) | PTPtr.
 Record karg := mkKA { ka_pt : ptype; ka_val : payload; ka_psize : Z }.
 
+(* the C type name a scope value is declared with in an inlined kernel's signature *)
+Inductive cname :=
+| CNBool | CNChar | CNUChar | CNShort | CNUShort | CNInt | CNUInt | CNLong | CNULong
+| CNFloat | CNDouble | CNVoid.
+
+Definition is_unsigned (k : kind) : bool :=
+  match k with KU8 | KU16 | KU32 | KU64 => true | _ => false end.
+
 Inductive obs :=
 | OType (o : otype)              (* an occaType: tag, bytes, needsFree, value *)
 | OKArg (a : karg)
+| ODecl (isConst : bool) (c : cname) (isPtr : bool)   (* "[const] <c> [*]name" *)
 | OList (l : list obs)
 | OBool (b : bool)
 | OInt (z : Z)
